@@ -55,6 +55,9 @@ pub struct Scn {
     /// with the first one
     #[serde(default)]
     pub second_synack: Option<(usize, u32)>,
+    /// the client's first segment rides on its SYN (TCP Fast Open); .1: the server's first segment rides on the SYN+ACK
+    #[serde(default)]
+    pub on_syn: (bool, bool),
 }
 
 pub struct C09;
@@ -88,10 +91,29 @@ fn build_trace(s: &Scn, isn_c: u32, isn_s: u32, c_cuts: &[usize], s_cuts: &[usiz
         meta.push(m);
         t += s.gap_ns;
     };
-    push(tcp::syn(&h, s.client, s.server, isn_c, 0), (true, usize::MAX, 0, 0), &mut trace, &mut meta);
-    push(tcp::syn_ack(&h, s.client, s.server, isn_s, isn_c, 0, 0), (false, usize::MAX, 0, 0), &mut trace, &mut meta);
     let cs = segs(s.req.len(), c_cuts);
     let ss = segs(s.resp.len(), s_cuts);
+    // data carried by a SYN segment starts one sequence number after the SYN's own
+    {
+        let mut syn = tcp::syn(&h, s.client, s.server, isn_c, 0);
+        let mut m = (true, usize::MAX, 0, 0);
+        if s.on_syn.0 {
+            if let Some(&(a, b)) = cs.first() {
+                syn.payload = s.req[a..b].to_vec();
+                m = (true, 0, a, b);
+            }
+        }
+        push(syn, m, &mut trace, &mut meta);
+        let mut sa = tcp::syn_ack(&h, s.client, s.server, isn_s, isn_c, 0, 0);
+        let mut m = (false, usize::MAX, 0, 0);
+        if s.on_syn.1 {
+            if let Some(&(a, b)) = ss.first() {
+                sa.payload = s.resp[a..b].to_vec();
+                m = (false, 0, a, b);
+            }
+        }
+        push(sa, m, &mut trace, &mut meta);
+    }
     let back = |fc: bool, k: usize, v: &[(usize, usize)]| -> usize {
         let j = s.extend_back.iter().filter(|e| e.0 == fc && e.1 == k).map(|e| e.2).max().unwrap_or(0);
         v[k.saturating_sub(j)].0
@@ -116,6 +138,9 @@ fn build_trace(s: &Scn, isn_c: u32, isn_s: u32, c_cuts: &[usize], s_cuts: &[usiz
                     push(seg, (efc, usize::MAX - 1, a, b), &mut trace, &mut meta);
                 }
             }
+        }
+        if (fc && k == 0 && s.on_syn.0) || (!fc && k == 0 && s.on_syn.1) {
+            continue; // already delivered with the handshake segment
         }
         if fc {
             if let Some(&(a, b)) = cs.get(k) {
@@ -330,6 +355,9 @@ impl Prop for C09 {
             extend_back,
             extra,
             second_synack,
+            // TCP Fast Open: one connection in ten carries its first client segment on the SYN, one in thirty the
+            // first server segment on the SYN+ACK
+            on_syn: (r.chance(1, 10), r.chance(1, 30)),
         }
     }
 
@@ -340,7 +368,7 @@ impl Prop for C09 {
         let ns = segs(s.resp.len(), &s.s_cuts).len();
         // ---- reference: in order, one segment per direction, plain ISNs
         clock::arm(1_700_000_000_000);
-        let plain = Scn { extend_back: vec![], extra: vec![], second_synack: None, ..s.clone() };
+        let plain = Scn { extend_back: vec![], extra: vec![], second_synack: None, on_syn: (false, false), ..s.clone() };
         let (rt, _) = build_trace(&plain, 1000, 5000, &[], &[], &in_order(1, 1));
         let rout = sut::run_deliver(&cfg, &rt).map_err(|e| Violation::new("harness-error", "", e))?;
         let pick = |outs: &[sut::PktOut], kind: &str| -> Vec<String> { outs.iter().flat_map(|o| o.obs.iter()).filter(|o| o.kind == kind).map(|o| o.text.clone()).collect() };
@@ -372,6 +400,9 @@ impl Prop for C09 {
         st.fault_n("retransmission_coalesced_with_earlier_segments", s.extend_back.len() as u64);
         if s.second_synack.is_some() {
             st.fault("second_syn_ack_with_another_sequence_number");
+        }
+        if s.on_syn.0 || s.on_syn.1 {
+            st.fault("data_on_a_handshake_segment");
         }
         if wrap_c || wrap_s {
             st.fault("isn_wraps_inside_stream");
@@ -505,6 +536,11 @@ impl Prop for C09 {
         if s.second_synack.is_some() {
             let mut x = s.clone();
             x.second_synack = None;
+            out.push(x);
+        }
+        if s.on_syn.0 || s.on_syn.1 {
+            let mut x = s.clone();
+            x.on_syn = (false, false);
             out.push(x);
         }
         // without the retransmission faults
